@@ -84,6 +84,22 @@ def r2_rotate_index(idx, r):
                 and isinstance(n.test.right, ast.Constant)), None)
     neg = par is not None and sorted(norm(s) for s in par.body) == ["newI *= -1", "newJ *= -1"]
     modulus = par.test.right.value if par is not None else 2
+    # the axial index first (independent of how the in-plane part is spelled): what IndexLocation receives as k must be the caller's k
+    envk = dict(single_assign_env(f.node))
+    for st_ in walk_local(f.node):
+        if isinstance(st_, ast.Assign) and len(st_.targets) == 1 and isinstance(st_.targets[0], ast.Tuple) and isinstance(st_.value, ast.Tuple) and len(st_.targets[0].elts) == len(st_.value.elts):
+            for t_, v_ in zip(st_.targets[0].elts, st_.value.elts):
+                if isinstance(t_, ast.Name):
+                    envk[t_.id] = v_
+    for rt in [n for n in walk_local(f.node) if isinstance(n, ast.Return) and isinstance(n.value, ast.Call) and (dotted(n.value.func) or "").endswith("IndexLocation") and len(n.value.args) >= 3]:
+        k3 = propagate(rt.value.args[2], {a: b for a, b in envk.items() if a != "k"})
+        arith = any(isinstance(x, (ast.BinOp, ast.UnaryOp, ast.IfExp)) for x in ast.walk(k3))
+        if norm(k3) in ("k", "int(k)", "loc[2]", "loc.k"):
+            r.ok("axial-index-unchanged", f, node=rt)
+        elif arith:
+            r.violate("axial-index-unchanged", f, f"the rotated location's axial index is `{norm(k3)}`: a rotation about the axis must leave k alone (an odd number of steps would mirror the cell axially)", node=rt)
+        else:
+            raise AnalysisError(f"rotateIndex: axial index `{norm(k3)}` not understood")
     sel = {s.attr: norm(s.value) for s in iter_stores(f.node) if s.attr in ("newI", "newJ") and s.kind == "assign"}
     if sel != {"newI": "buffer[0]", "newJ": "buffer[1]"} or not neg:
         raise AnalysisError(f"rotateIndex: selection/parity shape not recognised ({sel}, parity block {neg})")
@@ -216,10 +232,18 @@ def r4_block_rotation(idx, r):
               msg=f"pivot moves the first `position` entries (rows) to the end for lists and arrays alike: {leaves}")
     dp = idx.method("armi.reactor.blocks.HexBlock", "_rotateDisplacement")
     sx = {s.attr: s.value for s in iter_stores(dp.node) if s.chain in ("self.p.displacementX", "self.p.displacementY")}
-    E = ExprEval(env={"dispx": Poly.atom("x"), "dispy": Poly.atom("y")}, calls=lambda n, ev: Poly.atom(dotted(n.func).split(".")[-1]) if dotted(n.func) in ("math.cos", "math.sin") and norm(n.args[0]) == "rad" else None, opaque=False)
+    E = ExprEval(env={"dispx": Poly.atom("x"), "dispy": Poly.atom("y")}, calls=lambda n, ev: Poly.atom(dotted(n.func).split(".")[-1]) if dotted(n.func) in ("math.cos", "math.sin") and norm(n.args[0]) == dp.params()[1] else None, opaque=False)
     X, Y, C, S = Poly.atom("x"), Poly.atom("y"), Poly.atom("cos"), Poly.atom("sin")
     okd = "displacementX" in sx and "displacementY" in sx and E.ev(sx["displacementX"]) == X * C - Y * S and E.ev(sx["displacementY"]) == X * S + Y * C
     r.require(okd, "displacement:same-ccw-rotation", dp, msg="the displacement vector rotates with the same counter-clockwise matrix")
+    ang = dp.params()[1]
+    rebound = [s_ for s_ in iter_stores(dp.node) if isinstance(s_.node, ast.Name) and s_.attr == ang]
+    r.require(not rebound, "displacement:angle-is-this-rotation", dp, node=rebound[0].stmt if rebound else None,
+              msg=f"the angle applied to the displacement is re-assigned (`{norm(rebound[0].stmt) if rebound else ang}`) instead of being the angle of THIS rotation: from the second rotation of a block on, the displacement turns by the accumulated orientation, not by the step")
+    hb = idx.method("armi.reactor.blocks.HexBlock", "rotate")
+    cd = [c for c in iter_calls(hb.node) if dotted(c.func) == "self._rotateDisplacement"]
+    r.require(len(cd) == 1 and len(cd[0].args) == 1 and norm(cd[0].args[0]) == hb.params()[1], "displacement:called-with-this-rotation", hb, node=cd[0] if cd else None,
+              msg="HexBlock.rotate hands its own angle to _rotateDisplacement")
     ha = idx.method("armi.reactor.assemblies.HexAssembly", "rotate")
     r.require("return super().rotate(rad)" in norm(ha.node) and any(isinstance(n, ast.Raise) for n in walk_local(ha.node)) and "rad % (math.pi / 3)" in norm(ha.node), "assembly:sixty-degree-steps-only", ha, msg="assemblies rotate in 60-degree increments only")
     ar = idx.method("armi.reactor.assemblies.Assembly", "rotate")
